@@ -54,6 +54,10 @@ class Interp(_Interp):
         if t in (list, tuple, set, frozenset):
             if not args:
                 return t()
+            if t in (set, frozenset) and isinstance(args[0], ExtView) and args[0].kind in ("nodes", "edges") and not args[0].obj.concrete:
+                return args[0]  # a set of the nodes / edges answers membership and subset tests like the view itself
+            if t in (set, frozenset) and isinstance(args[0], ExtObj) and not args[0].concrete:
+                return ExtView(args[0], "nodes")
             if isinstance(args[0], Sym) and args[0].kind == "set":
                 return args[0]  # a copy of the symbolic set answers membership tests like the set itself
             if t in (list, tuple) and isinstance(args[0], Seq) and not args[0].concrete:
@@ -864,6 +868,11 @@ class Interp(_Interp):
                 recv.add(_hashable(args[0]))
             return None
         if name in ("update", "union", "difference", "intersection", "difference_update", "issubset", "issuperset", "isdisjoint"):
+            if name in ("issubset", "issuperset", "isdisjoint") and len(args) == 1 and isinstance(args[0], (ExtObj, ExtView)) and not (args[0].obj if isinstance(args[0], ExtView) else args[0]).concrete:
+                if name == "issuperset":
+                    raise Unsupported("set.issuperset of the nodes of an abstract graph", node, fi)
+                hits = [self.contains(args[0], x) for x in sorted(recv, key=show)]
+                return all(hits) if name == "issubset" else not any(hits)
             others = []
             for a in args:
                 kind, items = self.iterate3(a, node, frame)
